@@ -127,6 +127,21 @@ Definition run_c04 (id : str) (d : doc) (impl : sexp) : str :=
      kv "pages" (zlist_str pages);
      kv "npages" (nat_str (length (observed_pages pd)))]).
 
+(* item-level correspondence: the parsed output equals the model's items *)
+Definition items_agree (d : doc) (pd : pdoc) : bool :=
+  match document_pages (Some (collect_colors d)) d with
+  | Ok pages => list_eqb item_eqb (pd_items pd) (concat pages)
+  | Err _ => false
+  end.
+
+Definition run_c02 (id : str) (d : doc) (impl : sexp) : str :=
+  with_parsed id d impl (fun pd =>
+    let cl := check_c02 d pd in
+    [kv "holds" (bool_str (Nat.eqb cl 0)); kv "clause" (nat_str cl);
+     kv "agree" (bool_str (items_agree d pd));
+     kv "npages" (nat_str (length (observed_pages pd)));
+     kv "nrows" (nat_str (length (all_data_rows pd)))]).
+
 Definition run_case (e : sexp) : str :=
   match e with
   | SList [SStr mode; SStr id; de; impl] =>
@@ -136,6 +151,7 @@ Definition run_case (e : sexp) : str :=
       if str_eqb mode (s2l "corr") then run_corr id d impl
       else if str_eqb mode (s2l "c01") then run_c01 id d impl
       else if str_eqb mode (s2l "c04") then run_c04 id d impl
+      else if str_eqb mode (s2l "c02") then run_c02 id d impl
       else line [kv "id" id; kv "bad" (s2l "mode")]
     end
   | _ => s2l "bad=case"
